@@ -197,7 +197,7 @@ def parseView (s : String) (mg : Nat) : View :=
   let ac := (s.splitOn ";").map (fun e => (e.splitOn "/").map nat!)
   { nonce := fun a => (ac.getD a []).getD 0 0, balance := fun a => (ac.getD a []).getD 1 0, maxGas := mg }
 
-/-- reset with the code's demotion (`gapFix = false`) or the proposed patch; the oracles of the final enforcement are
+/-- reset (`gapFix = true` is the code at HEAD, `false` the demotion before c2af732); the oracles of the final enforcement are
     inferred, the first phase (re-injection) uses greedy victims and the default completion. -/
 def runReset (gapFix : Bool) (k : Nat) (s o : Pool) (v : View) (oldNum newNum : Nat) (reorg : Bool) (disc inc : List Tx) :
     Option String × Bool :=
@@ -326,12 +326,8 @@ def handle (l : String) : String :=
     let newN := nat! (arg "new")
     let v := parseView (arg "view") (nat! (arg "mg"))
     let reorg := arg "lin" != "1"
-    let a := runReset false k s o v oldN newN reorg disc inc
-    let d := match a.1 with
-      | none => none
-      | some w => match (runReset true k s o v oldN newN reorg disc inc).1 with
-        | none => none
-        | some _ => some w
+    let a := runReset true k s o v oldN newN reorg disc inc
+    let d := a.1
     finish disc.length true true (reorgFail s o oldN newN reorg disc inc) d a.2
   | _ => "bad-op\tagree"
 
